@@ -374,9 +374,11 @@ class HashSeedEngine(Engine):
         profiles = sorted(DETECTION_PROFILES)
         combos = [["PKS_AT", "PKS_KS"], ["Condensation", "AMP-binding"], ["t2ks", "t2clf"], ["LANC_like", "Lant_dehydr_N", "Lant_dehydr_C"],
                   ["Chal_sti_synt_C"], ["PUFA_KS"], ["APE_KS1"], ["phytoene_synt"], ["DarB"], ["PKS_AT", "tra_KS"],
-                  ["t2ks", "t2clf"], ["t2clf", "t2ks"]]
+                  ["t2ks", "t2clf"], ["t2clf", "t2ks"], ["phytoene_synt"]]
         for r in range(rng.choice([1, 1, 2])):
-            length = rng.choice([4000, 8000, 12000])
+            # (mostly records shorter than any rule's neighbourhood: one region covers them entirely; on the long
+            # ones a region near the start of a circular record reaches back over the origin instead)
+            length = rng.choice([4000, 8000, 8000, 12000, 12000, 60000])
             seq = "".join(rng.choice(GC_ALPHABET) for _ in range(length))
             genes = []
             circular = rng.random() < 0.4
@@ -404,7 +406,7 @@ class HashSeedEngine(Engine):
             if spanning and genes:
                 genes.append(spanning)
             records.append({"id": f"REC{r}", "seq": seq, "circular": circular, "genes": genes})
-            quiet = rng.random() < 0.15
+            quiet = rng.random() < 0.22
             if quiet:
                 # a record on which no rule fires: lone profile hits only (its genes matter only inside sideloaded
                 # areas, as genes with hits outside of every protocluster)
@@ -530,7 +532,7 @@ class HashSeedEngine(Engine):
             for name in anchors:
                 aa = sum(e - b for b, e in by_name[name]["parts"]) // 3
                 chosen = [rng.choice(known) for _ in range(rng.randint(1, 3))]
-                if rng.random() < 0.5:
+                if rng.random() < 0.7:
                     # several subtypes of one main type on top of each other: one domain prediction with a list
                     # of subtypes and merged reactions
                     family = [p for p in known if p["type"] == rng.choice(known)["type"]]
@@ -834,6 +836,8 @@ class HashSeedEngine(Engine):
                     summary["scenario"] = scenario_out
                     break
             if kind == "pipeline":
+                for probe in (rows[0][6] if len(rows[0]) > 6 else []):
+                    summary["probes"][f"pipeline_{probe}"] = 1
                 statuses = sorted({str(row[5]) for row in rows})
                 if statuses == ["exit:0"]:
                     summary["probes"]["pipeline_completed"] = 1
@@ -854,6 +858,11 @@ class HashSeedEngine(Engine):
 
 
 EXPECTED_PROBES = ["kind_refine", "kind_hmmer_overlap", "kind_filter", "kind_candidates", "kind_detect", "kind_pipeline",
-                   "pipeline_completed"]
+                   "pipeline_completed"] + [f"pipeline_{name}" for name in (
+                       "multi_record_input", "origin_crossing_region", "origin_spanning_gene_with_regions",
+                       "genes_with_hits_outside_protoclusters", "nrps_pks_modules", "sideloaded_areas", "cluster_hmmer_hits",
+                       "full_hmmer_hits", "tigrfam_hits", "pfam2go_terms", "gene_functions_from_2_tools", "t2pks_prediction",
+                       "t2pks_weights_with_3_tailoring_kinds", "terpene_domain_with_2_subtypes", "rre_hits", "tfbs_hits",
+                       "tta_codons")]
 
 ENGINE = HashSeedEngine()
